@@ -343,6 +343,20 @@ def shortcut_condition(P: Program, R: Report) -> None:
             for x in ast.walk(inner):
                 if isinstance(x, ast.Call) and call_name(x) == "array_equal" and len(x.args) == 2:
                     eq_calls.append((neg and x is inner, {hr.text(x.args[0]), hr.text(x.args[1])}))
+            # the test may live in a predicate method of the builder: `if not self._needs_relabeling(): return ..`
+            if isinstance(inner, ast.Call) and isinstance(inner.func, ast.Attribute) and norm(inner.func.value) == "self" and h.cls and not inner.args:
+                pred = P.lookup_method(h.cls.qname, inner.func.attr)
+                if pred is not None:
+                    pr = Resolver(P, pred)
+                    for r in ast.walk(pred.node):
+                        if not (isinstance(r, ast.Return) and r.value is not None) or isinstance(r.value, ast.Constant):
+                            continue
+                        rneg = isinstance(r.value, ast.UnaryOp) and isinstance(r.value.op, ast.Not)
+                        rin = r.value.operand if rneg else r.value
+                        for x in ast.walk(rin):
+                            if isinstance(x, ast.Call) and call_name(x) == "array_equal" and len(x.args) == 2:
+                                # the relabel call runs when guard holds: guard = [not] pred(); pred = [not] array_equal
+                                eq_calls.append(((neg != rneg) and x is rin, {pr.text(x.args[0]), pr.text(x.args[1])}))
         good = [e for e in eq_calls if e[0] and e[1] == {t_node, t_seg}]
         R.check(len(good) == 1 and len(eq_calls) == 1, "R13.4", h, s, "relabelling is skipped only when seg ids and node ids agree position by position",
                 f"path condition of the relabel call involves {[sorted(e[1]) for e in eq_calls] or 'no array_equal test'} (negated: {[e[0] for e in eq_calls]}): "
